@@ -1,4 +1,5 @@
 import Pendulum.Proofs.C15
+import Pendulum.Gen.RsHelpers
 import Pendulum.Proofs.LocalTime
 /-! # C15 — calendar primitives agree with the proleptic Gregorian calendar, both backends
 
